@@ -10,8 +10,8 @@ panic or 5xx), `Ledger/Generated/ErrTable.lean` (regenerated from the source by
 `tools/t3_errtable` on every check).  Each model is tied to the real decoders /
 router by the `vars`, `txbody`, `cursor` and `http` correspondence workloads.
 
-Where the unchanged code does fault (v1 `Script.ToCore`, `UnmarshalCursor` on the
-cursor `null`, v1 read handlers on store validation errors) the theorem is stated
+Where the unchanged code does fault (v1 `Script.ToCore`, v1 read handlers on store
+validation errors) the theorem is stated
 as `…_partial` excluding exactly that input class, next to a `…_counterexample`.
 -/
 namespace Ledger.C38
@@ -72,14 +72,15 @@ theorem bulkElement_total (parseTime : String → Option String) (el : JVal) :
 
 /-! ### Cursors and query parameters -/
 
-/-- `UnmarshalCursor`: every decoded cursor except JSON `null` is answered without a fault. -/
-theorem decodeCursor_partial (filtersOk : Bool) (v : Option JVal) (hv : v ≠ some .null) (m : String) :
+/-- `UnmarshalCursor`: every cursor — not base64, not JSON, JSON `null`, any JSON
+    value with any members — is answered without a fault. -/
+theorem decodeCursor_never_faults (filtersOk : Bool) (v : Option JVal) (m : String) :
     decodeCursor filtersOk v ≠ .fault m :=
-  decodeCursor_ne_fault filtersOk v hv m
+  decodeCursor_ne_fault filtersOk v m
 
-/-- `?cursor=bnVsbA` (base64 of `null`) panics in the real `UnmarshalCursor`. -/
-theorem decodeCursor_counterexample (filtersOk : Bool) :
-    ∃ m, decodeCursor filtersOk (some .null) = .fault m := ⟨_, rfl⟩
+/-- The cursor `null` (`?cursor=bnVsbA`), which used to panic, is a client error. -/
+theorem decodeCursor_null (filtersOk : Bool) :
+    decodeCursor filtersOk (some .null) = .clientError "invalid cursor" := rfl
 
 theorem pageSizeParam_never_faults (dflt max : Nat) (s m : String) : pageSizeParam dflt max s ≠ .fault m :=
   pageSizeParam_ne_fault dflt max s m
